@@ -351,3 +351,13 @@ func (cr *CheckRun) CheckParams(entries []CorpusEntry) {
 		return strings.HasPrefix(name, "new") && strings.HasSuffix(name, "Params")
 	}, nil)
 }
+
+// CheckResponses: C02 over the corpus.
+func (cr *CheckRun) CheckResponses(entries []CorpusEntry) {
+	bin, err := BuildGoag(cr.Repo, cr.Scratch)
+	if err != nil {
+		cr.EngineErrors = append(cr.EngineErrors, err.Error())
+		return
+	}
+	cr.RunEntries(bin, entries, false, func(name string) bool { return name == "writeJSON" }, func(job *EmittedJob) { cr.CheckWrites(job) })
+}
